@@ -85,7 +85,11 @@ def leaf(r, exotic=True):
     return r.choice([float('inf'), float('-inf'), float('nan'), complex(float('inf'), 0)])
   if x < 0.9:
     return r.choice([(1, 's'), (), ((1, 2), 3)])
-  if x < 0.94:
+  if x < 0.92:
+    # slices: every combination of given / omitted fields
+    return r.choice([slice(1, None), slice(None, 5), slice(1, 5), slice(None, None, 2), slice(0, None, 2),
+                     slice(None), slice(2, 9, 3), slice(-1, None, -1)])
+  if x < 0.95:
     return r.choice([graphs.NT(2, 1), Names((1, 2))])
   return {r.choice([(1, 2), 'k', 3, frozenset([1]), Hue.WARM, Prio.HIGH]): 1}
 
@@ -165,11 +169,27 @@ def scenario(i, r):
     # enum members of different classes that compare equal
     return fdl.Config(Model, width=Prio.LOW, name=Sig.ONE, opts=[Sig.ONE, Prio.LOW, Prio.HIGH],
                       enc=fdl.Partial(Layer, units=Sig.ONE, act=Prio.LOW)), None
+  if i == 3:
+    # a sub-fixture holding two further sub-fixtures that share TWO distinct nodes, neither of which
+    # is used outside the enclosing sub-fixture
+    n1, n2 = fdl.Config(relu, x=r.randint(1, 9)), fdl.Config(relu, x=r.randint(10, 19))
+    inner_a = fdl.Config(Layer, item=n1, units=n2)
+    inner_b = fdl.Config(Layer, item=n1, act=n2)
+    outer = fdl.Config(Model, enc=inner_a, dec=inner_b)
+    return fdl.Config(Model, enc=outer, width=3), {'outer_fix': outer, 'a_fix': inner_a, 'b_fix': inner_b}
   # list / tuple subclasses and other values a generator must reject or reproduce exactly
   return fdl.Config(Model, name=Names((1, 2)), opts=[Names(('a',)), (1, 2)], width=r.randint(0, 3)), None
 
 
+# values every run converts (beside the random ones): each shape of slice, nested in containers too
+FIXED_VALUES = [slice(1, None), slice(None, 5), slice(1, 5), slice(None, None, 2), slice(0, None, 2), slice(None),
+                slice(2, 9, 3), slice(-1, None, -1), [slice(3, None)], {'k': (slice(1, None), slice(None, 1))},
+                slice('a', None), slice(None, None, None), slice(1, None, 1)]
+
+
 def cases(tier, r):
+  for i in range(len(FIXED_VALUES)):
+    yield 'value', {'value': True, 'seed': r.getrandbits(48), 'fixed': i}
   for _ in range(260 if tier == 'quick' else 5000):
     yield 'config', {'seed': r.getrandbits(48), 'depth': r.choice([1, 2, 3]),
                      'generator': r.choice(['new', 'auto']),
@@ -180,7 +200,7 @@ def cases(tier, r):
   for _ in range(150 if tier == 'quick' else 3000):
     yield 'value', {'value': True, 'seed': r.getrandbits(48)}
   for i in range(24 if tier == 'quick' else 200):
-    yield 'scenario', {'scenario': i % 3, 'seed': r.getrandbits(48), 'generator': r.choice(['new', 'auto']),
+    yield 'scenario', {'scenario': i % 4, 'seed': r.getrandbits(48), 'generator': r.choice(['new', 'auto']),
                        'complexity': r.choice([None, 0, 2]), 'history': False, 'sub': 0, 'depth': 1,
                        'exotic': False, 'tags': False}
 
@@ -248,6 +268,8 @@ def execute(case):
   r = random.Random(case['seed'])
   if case.get('value'):
     v = leaf(r, True) if r.random() < 0.6 else Gen(r, True, False).value(2)
+    if 'fixed' in case:
+      v = FIXED_VALUES[case['fixed']]
     obs = {'value': True}
     try:
       node = py_val_to_cst_converter.convert_py_val_to_cst(v)
